@@ -69,6 +69,7 @@ type Exec struct {
 	curFrame  *Frame
 	siteOcc   map[string]int
 	siteIndex map[ssa.Instruction]siteInfo
+	heldHavocked bool
 	sitesHit  map[string]bool
 }
 
@@ -168,6 +169,12 @@ func (ex *Exec) heapGet(st *State, key string, sort *Sort) *Term {
 func (ex *Exec) heapSet(st *State, key string, t *Term) { st.Heap[key] = t }
 
 func (ex *Exec) havocKey(st *State, key string) {
+	if strings.HasSuffix(key, "*") {
+		for _, full := range ex.prog.Pre.KeysWithPrefix(strings.TrimSuffix(key, "*")) {
+			ex.havocKey(st, full)
+		}
+		return
+	}
 	sort := ex.tm.KeySort(key, ex.prog.Contracts)
 	if cur, ok := st.Heap[key]; ok {
 		sort = cur.Sort
@@ -319,6 +326,15 @@ func (ex *Exec) freshObject(st *State, name string) *Term {
 		ts.Neq(r, ts.Int(0)),
 		ts.Eq(ex.uf("alloctime", SInt, r), ts.Int(int64(st.Time))),
 		ts.Eq(ex.uf("addrkind", SInt, r), ts.Int(0))))
+	for name, g := range ex.prog.Contracts.GhostMaps {
+		if !g.FreshZero {
+			continue
+		}
+		key := "G:" + name
+		sort := SArray(ghostSort(g.Key), ghostSort(g.Val))
+		arr := ex.heapGet(st, key, sort)
+		ex.heapSet(st, key, ts.Store(arr, r, ex.tm.zeroSort(sort.Args[1])))
+	}
 	return r
 }
 
@@ -469,6 +485,11 @@ func (ex *Exec) reify(v Value) (*Term, bool) {
 	case TV:
 		return p.T, true
 	case Loc:
+		if p.Cell != nil && len(p.Path) == 0 {
+			// identity of a local variable (e.g. a local mutex captured by a
+			// closure): a distinct negative literal per cell
+			return ex.ts.Int(int64(-1000 - p.Cell.ID)), true
+		}
 		if p.Cell != nil || len(p.Path) > 0 {
 			return nil, false
 		}
